@@ -84,7 +84,7 @@ T_CG = 'pv/callgraph.py name/attribute based call resolution (dynamic dispatch t
 T_TY = 'pv/tyeng.py structural type inference (annotations in penman/types.py are taken as given)'
 T_DOC = 'the documented behaviour transcribed in spec/*.json (docs/notation.rst, docs/api, command-line help)'
 
-_p('C01', ['R20', 'R8g', 'R8f', 'R8d', 'R8e', 'R45', 'R23lex', 'R69', 'R19', 'R70', 'R71', 'R8a', 'R8b', 'R8c', 'R10', 'R9', 'R16', 'R43', 'R73'],
+_p('C01', ['R20', 'R8g', 'R8f', 'R8d', 'R8e', 'R45', 'R23lex', 'R69', 'R19', 'R70', 'R71', 'R8a', 'R8b', 'R8c', 'R10', 'R9', 'R16', 'R43', 'R73', 'R76', 'R14'],
    'option-taint abstract interpretation of the formatter; regex automata for the adjacency of written pieces',
    'R20: in penman/_format.py the values of indent and compact can reach only whitespace pieces (taint analysis over every '
    'string the formatter concatenates or joins); content, order and presence of the other pieces do not depend on them. R8g: '
@@ -158,7 +158,7 @@ _p('C07', ['R19', 'R9', 'R16', 'R43', 'R18', 'R35', 'R10', 'R6', 'R23lex', 'R8a'
    'bounded in length and depth; unbounded equivalence with the documented grammar is not proved.',
    'Bounded-exhaustive comparison at the level of token kinds (no input text is lexed or parsed by penman) plus exact typestate facts.',
    [T_CFG, 'pv/pfsm.py reference recogniser (hand-written from docs/notation.rst)', T_DOC])
-_p('C09', ['R6', 'R37', 'R12', 'R45', 'R8d', 'R8e', 'R23lex', 'R73'],
+_p('C09', ['R6', 'R37', 'R12', 'R45', 'R8d', 'R8e', 'R23lex', 'R73', 'R77', 'R76'],
    'splitter regex language equivalence; reachability of the one lexer; symbolic output pieces of the stream writer',
    'R6: string input is split by a regex whose language equals \\r\\n|\\r|\\n (defect F2 was str.splitlines). R37: every '
    'decoding entry point reaches the one lexer with its argument unmodified, comments and node come from one token stream, '
@@ -166,7 +166,7 @@ _p('C09', ['R6', 'R37', 'R12', 'R45', 'R8d', 'R8e', 'R23lex', 'R73'],
    'survives an empty sequence. R12: the model is forwarded. R45: metadata is written in the form the comment scanner reads back.',
    'Equality of the decoded graphs across containers for every text is not decided; file iteration semantics of CPython are trusted.',
    'Exact language decision and call-shape facts; necessary conditions.', [TRUST_RE, T_CG, 'text-mode file iteration splits at LF, CRLF, CR (universal newlines)'])
-_p('C10', ['R11', 'R30', 'R31', 'R52', 'R70'],
+_p('C10', ['R11', 'R30', 'R31', 'R52', 'R70', 'R58'],
    'typed lookup lint; loop-shape path checks; may-analysis of freshness',
    'R30: _map_vars yields exactly one output branch per input branch, passes roles through, rewrites a target only by recursion '
    'into nested nodes or by the variable map on non-concept atoms, keeps the alignment suffix, and returns the output list (never '
@@ -175,7 +175,7 @@ _p('C10', ['R11', 'R30', 'R31', 'R52', 'R70'],
    'test against the used names and is recorded before the next search (bijection).',
    'That interpretation commutes with the renaming is not decided.',
    'CFG path facts on three functions; necessary conditions.', [T_CFG, T_TY])
-_p('C11', ['R31', 'R3', 'R38', 'R33', 'R36', 'R44', 'R62', 'R63', 'R15', 'R2', 'R66', 'R32', 'R65', 'R14', 'R64', 'R29', 'R28', 'R73'],
+_p('C11', ['R31', 'R3', 'R38', 'R33', 'R36', 'R44', 'R62', 'R63', 'R15', 'R2', 'R66', 'R32', 'R65', 'R14', 'R64', 'R29', 'R28', 'R73', 'R75'],
    'may-analysis of freshness; constructor-argument lint; closed-world listing of what flows into a set; control-dependence facts',
    'R31: reify_edges / Model.reify accept a new variable only after testing it against the variables in use. R3: transformed '
    'graphs are built with the argument\'s top. R38: a node enters the dereification agenda only if it is not in the fixed set, '
@@ -207,7 +207,7 @@ _p('C13', ['R29', 'R28', 'R23model', 'R24m', 'R30', 'R48', 'R64', 'R5', 'R73'],
    'Idempotence and involution as algebraic laws over all role strings are not proved; a re-implementation of '
    '_canonicalize_inversion by other means is reported as undecided (exit 2).',
    'Exact boolean equivalences with counter-assignments; necessary conditions.', [T_CFG])
-_p('C14', ['R2', 'R1', 'R36', 'R44', 'R61', 'R66', 'R15', 'R74'],
+_p('C14', ['R2', 'R1', 'R36', 'R44', 'R61', 'R66', 'R15', 'R74', 'R58', 'R14'],
    'partial-map lint; path checks on the context-stack simulation; module-state lint',
    'R36: node_contexts pushes the pushed variable of a triple and pops once per Pop marker (no early exit, no "any"); R44: '
    'appears_inverted answers False outright only for instance/attribute triples, compares the pushed variable with the source '
@@ -236,7 +236,7 @@ _p('C16', ['R40', 'R28', 'R29', 'R7', 'R13', 'R12', 'R73', 'R74'],
    'every file is OR-ed into the value passed to sys.exit (defect F3), with no short-circuit.',
    'Completeness of the reachability computation (_dfs) for every graph is not decided.',
    'Path and dataflow facts; necessary conditions.', [T_CFG, T_CG])
-_p('C17', ['R14', 'R13', 'R15', 'R60', 'R61', 'R48'],
+_p('C17', ['R14', 'R13', 'R15', 'R60', 'R61', 'R48', 'R75', 'R76', 'R77'],
    'whole-program points-to with mutation events against a table of pure entry points; set-iteration classification on inferred types',
    'R14: for every entry point listed in spec/pure_api.json no mutation event (attribute/subscript store, mutating method, '
    'in-place operator) can reach an object that is reachable from an argument or from module-level state (Andersen-style '
@@ -246,7 +246,7 @@ _p('C17', ['R14', 'R13', 'R15', 'R60', 'R61', 'R48'],
    'Determinism across processes beyond hash-order effects (e.g. random_order by design) is not decided.',
    'A sound-by-construction may-analysis (over-approximate flow, so a pass means no mutation path exists in the model) plus lints.',
    ['pv/effects.py (heap model: one object per allocation site and constructor context; strings/numbers carry no objects)', T_CG, T_TY])
-_p('C19', ['R10', 'R9', 'R41', 'R16', 'R56', 'R37', 'R18', 'R59', 'R8d', 'R8e', 'R6', 'R60', 'R61', 'R23lex', 'R69', 'R74'],
+_p('C19', ['R10', 'R9', 'R41', 'R16', 'R56', 'R37', 'R18', 'R59', 'R8d', 'R8e', 'R6', 'R60', 'R61', 'R23lex', 'R69', 'R74', 'R43'],
    'token-class coverage via reaching definitions; regex language decisions on TRIPLE_RE; output-shape check of the writer',
    'R56: format_triples writes role(source, target) per triple joined by " ^" and LF or space. R41: the writer strips the leading '
    'colon and the reader/Graph restores it. R10: every token class of TRIPLE_RE is handled by _parse_triple and STRING is accepted '
@@ -254,7 +254,7 @@ _p('C19', ['R10', 'R9', 'R41', 'R16', 'R56', 'R37', 'R18', 'R59', 'R8d', 'R8e', 
    'raised, no StopIteration escapes. R8d/R8e: the token classes of TRIPLE_RE are the documented ones.',
    'Equality of the parsed list with the written list for all symbol/string contents is not decided.',
    'Reaching-definition and language facts; necessary conditions.', [TRUST_RE, T_CFG])
-_p('C20', ['R24', 'R25', 'R12', 'R42', 'R7', 'R13', 'R20', 'R31', 'R38', 'R2', 'R53', 'R71', 'R72', 'R37', 'R56', 'R45', 'R47', 'R27', 'R26', 'R52', 'R33', 'R3', 'R14', 'R41', 'R10', 'R73', 'R74'],
+_p('C20', ['R24', 'R25', 'R12', 'R42', 'R7', 'R13', 'R20', 'R31', 'R38', 'R2', 'R53', 'R71', 'R72', 'R37', 'R56', 'R45', 'R47', 'R27', 'R26', 'R52', 'R33', 'R3', 'R14', 'R41', 'R10', 'R73', 'R74', 'R24m', 'R77', 'R76'],
    'CFG order of pipeline calls with interprocedural summaries; guard facts per option; argument threading',
    'R24: on every path through process/_process_in/_process_out the operations occur in the documented order (spec/pipeline.json). '
    'R25: every documented option is defined, feeds its own entry of the option dicts, and guards exactly its own operation. '
